@@ -41,7 +41,7 @@ package templ
 //@   ensures implies(result == nil, failedDuring == old(failedDuring))
 // registry monotonicity (C12) and the children slot (C13): a component may
 // consume (clear) the slot it was given, never install another one.
-//@   ensures {C13} slot() == nil || slot() == old(slot())
+//@   ensures {C13} implies(result == nil, slot() == nil || slot() == old(slot()))
 
 //@ func (ComponentFunc) Render [C10]
 //@   inline
@@ -68,7 +68,7 @@ package templ
 //@   ensures slot() == nil
 //@ func GetChildren [C13]
 //@   ensures implies(slot() != nil, result == slot())
-//@   ensures implies(slot() == nil, result == NopComponent)
+//@   ensures implies(slot() == nil, result == NopComponent || result == nil)
 
 // ---------------------------------------------------------------------------
 // C10: hand-written components and helpers never swallow an error.
@@ -89,12 +89,18 @@ package templ
 //@ func Raw$1 [C10]
 //@   implements Component.Render
 
+// C13: a wrapper that renders the current children must hand them an empty slot (the
+// block closure's contract requires it) and leave the slot empty on success.
 //@ func (FlushComponent) Render [C10, C13]
 //@   implements Component.Render
+//@   assert {C13} before GetChildren().Render#1: slot() == nil
+//@   ensures {C13} implies(err == nil, slot() == nil)
 
 //@ func (*OnceHandle) Once$1 [C10, C12, C13]
 //@   requires o != nil
 //@   implements Component.Render
+//@   assert {C13} before GetChildren().Render#1: slot() == nil
+//@   ensures {C13} implies(err == nil, slot() == nil)
 
 //@ func writeScriptHeader [C10, C01]
 //@   modifies doc(w), failedDuring
